@@ -432,6 +432,10 @@ class TJPTransformer(Transformer[Any, Any]):
 
     # Named task attribute rules
     def task_start(self, items: list[Any]) -> tuple[str, Any]:
+        if isinstance(items[0], Token) and items[0].type == "MACRO_REF":
+            # The preprocessor left the reference in place: no such macro. A start date that
+            # is not a date must not reach the scheduler.
+            raise ValueError(f"Undefined macro {items[0].value} where a start date is expected (line {items[0].line})")
         return ("start", items[0])
 
     def task_end(self, items: list[Any]) -> tuple[str, Any]:
